@@ -441,7 +441,7 @@ def alpha_graph(ctx, i):
 
 
 def run(ctx):
-    n = 130 if ctx.tier == "quick" else 1500
+    n = 130 if ctx.tier == "quick" else 5500
     if ctx.replay:
         ctx.inconc("C06 replays are re-generated from the seed; re-run the tier with the recorded seed")
         return
